@@ -6,7 +6,7 @@ sid, change, needs = sys.argv[1:4]
 d = os.path.join(ROOT, 'seeded', sid)
 verdict = open(os.path.join(d, 'confirm.log')).read().strip().split('\n')[-1]
 meta = {'id': sid, 'property': sid.split('_')[0], 'change': change, 'needs_to_manifest': needs,
-        'source': 'written by a fresh sub-agent (round 2) that was given only the property text and its own scratch worktree (nothing from /verif); full description in notes.md',
+        'source': 'written by a fresh sub-agent (round ' + os.environ.get('SEED_ROUND', '2') + ') that was given only the property text and its own scratch worktree (nothing from /verif); full description in notes.md',
         'confirmed_by_me': {'verdict': verdict, 'ran': 'tools/confirm_seed.sh in the scratch worktree: git apply --check; pinned suite with the patch (python3 tools/baseline.py <worktree>: regressions=0 required); demo test with the patch (must fail) and without it (must pass)', 'log': 'confirm.log'}}
 json.dump(meta, open(os.path.join(d, 'meta.json'), 'w'), indent=1, ensure_ascii=False)
 print(sid, verdict)
